@@ -63,6 +63,7 @@ class Lower:
         self._overloads = {}
         self.cur = None
         self.enumconst_cache = {}
+        self.cur_ret_ref = False
 
     # ------------------------------------------------------------------ names
     def rec_name_of(self, fn):
@@ -596,7 +597,8 @@ class Lower:
             cn = self.cname(df)
             self.cur.calls.append(cn)
             self.cur.calldecls[cn] = df
-            return '%s(%s)' % (cn, ', '.join(self.args_for(df, args)))
+            call = '%s(%s)' % (cn, ', '.join(self.args_for(df, args)))
+            return '(*%s)' % call if self.returns_ref(df) else call
         return self.lib_free_call(name, d, args, n)
 
     def ex_CXXMemberCallExpr(self, n):
@@ -614,7 +616,8 @@ class Lower:
             cn = self.cname(df)
             self.cur.calls.append(cn)
             self.cur.calldecls[cn] = df
-            return '%s(%s)' % (cn, ', '.join([optr] + self.args_for(df, args)))
+            call = '%s(%s)' % (cn, ', '.join([optr] + self.args_for(df, args)))
+            return '(*%s)' % call if self.returns_ref(df) else call
         return self.lib_method(ocls, ot, f['name'], optr, oe, d, args, n)
 
     def obj_type(self, obj, f):
@@ -732,6 +735,9 @@ class Lower:
         cls, t = self.types.classify(qt(strip(a0)) if strip(a0).get('kind') != 'ImplicitCastExpr' else qt(a0))
         if cls in ('ref',):
             cls, t = self.types.classify(t.to)
+        if cls == 'record' and name == 'operator=' and (d or {}).get('isImplicit'):
+            # implicitly generated copy/move assignment of a plain record: member-wise copy
+            return '%s = %s' % (self.ex(a0), self.ex(args[1]))
         if self.is_repo_fn(d) and cls in ('record', 'bt'):
             df = self.ast.decl2def.get(d['id'], d)
             cn = self.cname(df)
@@ -1090,6 +1096,8 @@ class Lower:
             out.append(ind + 'return;')
             return
         e = self.ex(ks[0])
+        if self.cur_ret_ref:
+            e = self.addr(e)
         self.flush_pre(out, ind)
         if self.has_call(ks[0]):
             t = self.tmp()
@@ -1418,6 +1426,7 @@ class Lower:
         # return type: text before the first '(' at depth 0, or trailing return
         rt = self.ret_type(fn)
         f.ret = rt
+        self.cur_ret_ref = self.returns_ref(fn)
         if is_ctor:
             f.ret = 'struct ' + rec
             self.types.ctype(parse_type('CDNS::' + rec))
@@ -1449,12 +1458,26 @@ class Lower:
         if not body:
             raise LowerError("function %s has no body" % f.cname)
         inner = self.st(body[0], '  ')
+        # a call evaluated after an exception was raised (nested call arguments) must have no effect
+        out.append('  if (g_exc) %s' % self.exc_exit[0])
         if is_ctor:
             inner.append('  return __obj;')
         f.body = '\n'.join(out + inner)
         f.proto = '%s %s(%s)' % (f.ret, f.cname, ', '.join('%s %s' % p for p in params) or 'void')
         self.cur, self.pre, self.exc_exit, self.local_ids, self.rename, self.vla_len = prev
         return f
+
+    def returns_ref(self, fn):
+        q = fn['type']['qualType']
+        d = 0
+        for i, ch in enumerate(q):
+            if ch == '<':
+                d += 1
+            elif ch == '>':
+                d -= 1
+            elif ch == '(' and d == 0:
+                return q[:i].rstrip().endswith('&')
+        return False
 
     def ret_type(self, fn):
         q = fn['type']['qualType']
